@@ -1409,17 +1409,28 @@ impl<R: std::io::Read> Decoder<R> {
             .blocks
             .streaminfo()
             .total_samples
-            .map(|total| total.get() - self.current_sample)
+            .map(|total| total.get().checked_sub(self.current_sample))
         {
-            Some(0) => return Ok(None),
-            Some(remaining) => FrameHeader::read(crc16_reader.by_ref(), self.blocks.streaminfo())
-                .and_then(|header| {
-                // only the last block in a stream may contain <= 14 samples
-                let block_size = u16::from(header.block_size);
-                (u64::from(block_size) == remaining || block_size > 14)
-                    .then_some(header)
-                    .ok_or(Error::ShortBlock)
-            })?,
+            // positioned beyond the stream's declared length
+            // (e.g. by a seek point that doesn't belong to this stream)
+            Some(None) => return Err(Error::TooManySamples),
+            Some(Some(0)) => return Ok(None),
+            Some(Some(remaining)) => {
+                FrameHeader::read(crc16_reader.by_ref(), self.blocks.streaminfo()).and_then(
+                    |header| {
+                        // only the last block in a stream may contain <= 14 samples
+                        let block_size = u16::from(header.block_size);
+                        if u64::from(block_size) > remaining {
+                            // block runs past the stream's declared length
+                            Err(Error::TooManySamples)
+                        } else if u64::from(block_size) == remaining || block_size > 14 {
+                            Ok(header)
+                        } else {
+                            Err(Error::ShortBlock)
+                        }
+                    },
+                )?
+            }
             // if total number of remaining samples isn't known,
             // treat an EOF error as the end of stream
             // (this is an uncommon case)
